@@ -765,7 +765,8 @@ class Sum(Binary):
     this is used to optimize memory addressing code.
     """
     def __init__(self, ebpf, left, right):
-        super().__init__(ebpf, left, right, Opcode.ADD, right.value < 0, False)
+        super().__init__(ebpf, left, right, Opcode.ADD,
+                         left.signed or right.value < 0, False)
 
     def __add__(self, value):
         try:
